@@ -380,6 +380,25 @@ def write_replay(prop, clause, fail, outdir=None):
     return path
 
 
+def np_scalars(params, on=True):
+    """hyper-parameters as NumPy scalars (numpy.bool_, numpy.int64, numpy.float64) instead of Python ones: what a parameter grid built
+    from arrays, or a flag computed from data, hands to a constructor; same configuration, same statement"""
+    if not on:
+        return dict(params)
+    import numpy as np
+    out = {}
+    for k, v in params.items():
+        if isinstance(v, bool):
+            out[k] = np.bool_(v)
+        elif isinstance(v, int):
+            out[k] = np.int64(v)
+        elif isinstance(v, float):
+            out[k] = np.float64(v)
+        else:
+            out[k] = v
+    return out
+
+
 # --------------------------------------------------------------------------- main driver
 def _pool(n):
     """fork pool whose workers are NOT daemonic: joblib answers effective_n_jobs()==1 inside a daemonic process, so code that sizes its
